@@ -2,14 +2,17 @@
 EXTENDS ConcSave, Json
 CONSTANTS Scenario, EmitReplay
 VARIABLE hist
-mvars == <<todo, grp, pc, nxt, table, idx, part, dump, rel, hist>>
+mvars == <<todo, grp, base, pc, nxt, table, idx, part, dump, rel, hist>>
 (* string sets: equal, disjoint, overlapping, one saver without strings, three savers *)
 TodoOf(sc) == CASE sc = "equal"    -> <<<<"Qa7x", "Qb7x">>, <<"Qa7x", "Qb7x">>>>
                 [] sc = "disjoint" -> <<<<"Qa7x", "Qa7x">>, <<"Qb7x", "Qc7x">>>>
                 [] sc = "overlap"  -> <<<<"Qa7x", "Qb7x">>, <<"Qb7x", "Qc7x">>>>
                 [] sc = "empty"    -> <<<<>>, <<"Qa7x">>>>
                 [] sc = "three"    -> <<<<"Qa7x">>, <<"Qb7x">>, <<>>>>
-MInit == CInitWith(TodoOf(Scenario), [t \in DOMAIN TodoOf(Scenario) |-> 1]) /\ hist = <<>>
+                [] sc = "lazy"     -> <<<<"Qc7x">>, <<"Qc7x", "Qd7x">>>>     \* one sheet edited, the other still raw
+BaseOf(sc) == IF sc = "lazy" THEN <<<<"Qa7x", "Qb7x">>, <<"Qa7x", "Qb7x">>>>
+              ELSE [t \in DOMAIN TodoOf(sc) |-> <<>>]
+MInit == CInitWith(TodoOf(Scenario), [t \in DOMAIN TodoOf(Scenario) |-> 1], BaseOf(Scenario)) /\ hist = <<>>
 MNext == \E t \in Savers : Step(t) /\ hist' = Append(hist, t)
 MSpec == MInit /\ [][MNext]_mvars /\ \A t \in 1..3 : WF_mvars(t \in Savers /\ Step(t) /\ hist' = Append(hist, t))
 View == cvars
